@@ -20,6 +20,7 @@ mod c03b;
 mod c04;
 mod c05;
 mod c12;
+mod c01;
 
 #[global_allocator]
 static GLOBAL: allocrec::Rec = allocrec::Rec;
@@ -50,6 +51,7 @@ fn main() {
         "C04" => c04::run(&mut out, tier, seed, corpus.as_deref()),
         "C05" => c05::run(&mut out, tier, seed, corpus.as_deref()),
         "C12" => c12::run(&mut out, tier, seed, corpus.as_deref()),
+        "C01" => c01::run(&mut out, tier, seed, corpus.as_deref()),
         "C17" => c17::run(&mut out, tier, seed, corpus.as_deref()),
         "C14" => c14::run(&mut out, tier, seed, corpus.as_deref()),
         "C11" | "C10" => c11::run(&mut out, tier, seed, corpus.as_deref(), prop),
